@@ -652,3 +652,83 @@ def tlc_replay_cases(ctx, name, module, cfg, tag="REPLAY", **kw):
     """Spec -> impl: run TLC with a config whose invariant prints one JSON case per behaviour
     (<<"REPLAY", json>>); cached like LTS dumps.  Returns (path, count)."""
     return tlc_dump(ctx, name, module, cfg, tag=tag, **kw)
+
+
+# ---- selftest helpers: demonstrate that the binding rejects corrupted recordings ----------------
+def selftest_calls(ctx, name, module, cfg, path, corrupt, take=40):
+    """Take `take` accepted call events from `path`, corrupt each with `corrupt(event) -> event|None`
+    and require that TLC flags every corrupted one (and none of the originals)."""
+    evs = read_ndjson(path)[:4000]
+    orig = ctx.work / f"st-{name}-orig.ndjson"
+    bad = ctx.work / f"st-{name}-bad.ndjson"
+    chosen = []
+    for e in evs:
+        c = corrupt(json.loads(json.dumps(e)))
+        if c is not None and c != e:
+            chosen.append((e, c))
+        if len(chosen) >= take:
+            break
+    if not chosen:
+        raise ToolError(f"selftest {name}: no event could be corrupted")
+    with open(orig, "w") as f:
+        for e, _ in chosen:
+            f.write(json.dumps(e, separators=(",", ":")) + "\n")
+    with open(bad, "w") as f:
+        for _, c in chosen:
+            f.write(json.dumps(c, separators=(",", ":")) + "\n")
+    _, b0 = validate_calls(ctx, module, cfg, orig, parts=1)
+    _, b1 = validate_calls(ctx, module, cfg, bad, parts=1)
+    # events outside the property's quantifier (skip-*) cannot be expected to be flagged
+    skipped = {v["l"] for _, v in b0 if v.get("key", "").startswith("skip-")}
+    skipped |= {v["l"] for _, v in b1 if v.get("key", "").startswith("skip-")}
+    b0 = [x for x in b0 if not x[1].get("key", "").startswith("skip-")]
+    flagged = {v["l"] for _, v in b1 if not v.get("key", "").startswith("skip-")}
+    chosen = [c for i, c in enumerate(chosen) if (i + 1) not in skipped]
+    ok = not b0 and len(flagged) == len(chosen)
+    ctx.cov["parts"][f"selftest.{name}"] = {"corrupted_events": len(chosen), "flagged": len(flagged),
+                                            "originals_flagged": len(b0)}
+    ctx.add_bound(f"selftest.{name}", len(chosen), len(chosen))
+    if not ok:
+        raise ToolError(f"selftest {name}: {len(flagged)}/{len(chosen)} corrupted events flagged, "
+                        f"{len(b0)} originals flagged")
+    log(f"[selftest] {name}: {len(flagged)}/{len(chosen)} corrupted call events rejected, originals accepted")
+
+
+def selftest_traces(ctx, name, module, cfg, path, corrupt, take=12, tail=False):
+    """Same for stateful traces: corrupt one event of each trace (or delete it when corrupt returns
+    "drop") and require that every corrupted trace is rejected and every original accepted."""
+    lines = [json.loads(l) for l in open(path) if l.strip()]
+    traces, cur = [], []
+    for e in lines:
+        if e.get("ev") == "reset" and cur:
+            traces.append(cur)
+            cur = []
+        cur.append(e)
+    if cur:
+        traces.append(cur)
+    good, bad = [], []
+    for t in traces:
+        if len(good) >= take:
+            break
+        for i in (range(len(t) - 1, 0, -1) if tail else range(1, len(t) - 3)):
+            c = corrupt(json.loads(json.dumps(t[i])))
+            if c is None:
+                continue
+            good.append(t)
+            bad.append(t[:i] + ([] if c == "drop" else [c]) + t[i + 1:])
+            break
+    if not good:
+        raise ToolError(f"selftest {name}: nothing to corrupt")
+    pg, pb = ctx.work / f"st-{name}-good.ndjson", ctx.work / f"st-{name}-bad.ndjson"
+    for p, ts in ((pg, good), (pb, bad)):
+        with open(p, "w") as f:
+            for t in ts:
+                for e in t:
+                    f.write(json.dumps(e, separators=(",", ":")) + "\n")
+    _, _, r0 = validate_traces(ctx, module, cfg, pg, parts=1, max_reject=10 ** 6)
+    _, _, r1 = validate_traces(ctx, module, cfg, pb, parts=1, max_reject=10 ** 6)
+    ctx.cov["parts"][f"selftest.{name}"] = {"corrupted_traces": len(bad), "rejected": len(r1), "originals_rejected": len(r0)}
+    ctx.add_bound(f"selftest.{name}", len(bad), len(bad))
+    if r0 or len(r1) != len(bad):
+        raise ToolError(f"selftest {name}: {len(r1)}/{len(bad)} corrupted traces rejected, {len(r0)} originals rejected")
+    log(f"[selftest] {name}: {len(r1)}/{len(bad)} corrupted traces rejected, originals accepted")
